@@ -829,7 +829,7 @@ Definition step_op (o : op) (s : st) : res st :=
     do s1 <- update_file_hashes c hs s0; mark_completed l ok wd s1
   | OpResetToPending l =>
     do s1 <- reset_for_rerun l s; set_sstate l SPending false (delete_hash l s1)
-  | OpValidatePending l => set_sstate l SPending false s
+  | OpValidatePending l => set_sstate l SPending true s      (* deferred: d760e3e (D36) *)
   | OpMarkStepPending l => mark_step_pending l s
   | OpDeleteDetached => delete_detached s
   | OpHold l => hold l s
